@@ -3,6 +3,7 @@ ACID transaction implementation for the Python Iceberg implementation
 """
 
 import copy
+import dataclasses
 import json
 import os
 import threading
@@ -112,9 +113,26 @@ class Transaction:
             if table_schema is not None:
                 self._validate_file_schema(data_file, table_schema)
 
+        # A file registered WITHOUT a checksum is never verified: scans guard
+        # verification with `if verify and data_file.checksum`, so with
+        # verification on (the default) altered bytes of such a file were
+        # returned as rows. Record the checksum at registration, as
+        # write_data_file does for files this library writes.
+        files = [
+            f if f.checksum else self._with_computed_checksum(f)
+            for f in files
+        ]
+
         self._operations.append({"type": "append_files", "files": files})
 
         return self
+
+    def _with_computed_checksum(self, data_file: DataFile) -> DataFile:
+        from .integrity import IntegrityChecker
+
+        with self.file_manager.storage.open_file(data_file.file_path.lstrip("/")) as stream:
+            checksum = IntegrityChecker.compute_checksum_from_stream(stream)
+        return dataclasses.replace(data_file, checksum=checksum)
 
     def _validate_file_schema(self, data_file: DataFile, table_schema: Schema) -> None:
         """Reject a pre-built data file whose stored schema diverges from the table's.
